@@ -6,6 +6,7 @@ import XmppModel.Lemmas.NegotiateAdv
 import XmppModel.Lemmas.NegotiateReach
 import XmppModel.Lemmas.NegotiateTerm
 import XmppModel.Lemmas.NegotiateDriver
+import XmppModel.Lemmas.NegotiateTee
 import XmppModel.Generated.C01
 /-!
 # C01 — features are negotiated only when allowed, in order, at most once
@@ -275,6 +276,76 @@ theorem C01_list_complete {c : Conf} (h : Reach C O st0 script picks c) (hd : c.
     (hs : c.srv = false) : Covered C c c.curAdv :=
   (invK_reach h).afterK (by rw [hd]; rfl) hs
 
+/-! ### configured features that share a namespace
+
+The code keys the features cache (`streamFeaturesList.cache`) and `s.negotiated` by namespace.
+What holds when two configured features carry the same namespace, and what does not: -/
+
+/-- the cache holds **at most one entry per namespace** (a later feature of the same namespace
+replaces the earlier one: receiver in configuration order, initiator in advertisement order) -/
+theorem C01_cache_one_per_ns {c : Conf} (h : Reach C O st0 script picks c) :
+    (c.cache.map (·.f.name.ns)).Nodup := (invN_reach h).nodup
+
+/-- of all features of one namespace **at most one is negotiated per stream**: a `Negotiate`
+call for `f` never follows, on the same stream, a successful one for a feature `g` of the same
+namespace (`C01_once` read at the level of features) -/
+theorem C01_one_per_ns_per_stream {c : Conf} (h : Reach C O st0 script picks c) (l₁ l₂ : List Ev)
+    {f : Feature} {st : St} {req forced srv : Bool} {r : NegRes}
+    (ht : c.tr = l₁ ++ Ev.neg f st req forced srv r :: l₂) :
+    ∀ ns ∈ segNs l₂, ns ≠ f.name.ns :=
+  fun _ hns heq => C01_once_at h l₁ l₂ ht (heq ▸ hns)
+
+/-- **with pairwise distinct namespaces nothing is shadowed**: if no two configured features share
+a namespace and the library itself decided that negotiation is complete, then every child of the
+last features list that names a configured feature `f` is recorded — cached or skipped — as `f`
+itself, and if it was recorded as mandatory, is negotiable and eligible in the state `stb` of the
+decision, its namespace has been negotiated -/
+theorem C01_ready_sound_unique_ns {c : Conf} (h : Reach C O st0 script picks c) (hd : c.pc = .done)
+    (hs : c.srv = false) (h0 : has st0 bReady = false) (hf : ¬ FeatReady c.tr)
+    (huniq : ∀ f g, f ∈ C → g ∈ C → f.name.ns = g.name.ns → f = g) :
+    ∃ stb, c.st = stb ||| bReady ∧
+      ∀ name req f, AdvItem.feat name req ∈ c.curAdv → C.find? (fun f => f.name == name) = some f →
+        ∃ e ∈ c.cache ++ c.skipped, e.f = f ∧
+          (e.req = true → f.negotiable = true → eligible stb f = true →
+            c.negd.contains f.name.ns = true) := by
+  obtain ⟨_, stb, hst, hno⟩ := C01_ready_sound h hd h0 hf
+  refine ⟨stb, hst, ?_⟩
+  intro name req f hm hfind
+  have hfC : f ∈ C := List.mem_of_find?_eq_some hfind
+  have hN := invN_reach h
+  rcases C01_list_complete h hd hs name req f hm hfind with ⟨e, he, hns⟩ | ⟨e, he, hef⟩
+  · have : e.f = f := huniq _ _ (hN.cacheC e he) hfC hns
+    refine ⟨e, List.mem_append_left _ he, this, ?_⟩
+    intro h1 h2 h3
+    have := hno e (List.mem_append_left _ he) h1 (this ▸ h2) (this ▸ h3)
+    rwa [‹e.f = f›] at this
+  · refine ⟨e, List.mem_append_right _ he, hef, ?_⟩
+    intro h1 h2 h3
+    have := hno e (List.mem_append_right _ he) h1 (hef ▸ h2) (hef ▸ h3)
+    rwa [hef] at this
+
+/-- callbacks that succeed and change nothing -/
+def plainO : Oracle :=
+  { neg := fun _ _ _ => ⟨0, false, false⟩, list := fun _ _ _ => ⟨false, false⟩,
+    parseErr := fun _ _ _ => false, fault := fun _ => false, cancel := fun _ => false,
+    block := fun _ => false, dlRd := true, dlWr := true, layer := fun _ _ => false }
+
+def fMand : Feature := ⟨0, ⟨2, 1⟩, 0, 0, true⟩
+def fInfo : Feature := ⟨1, ⟨2, 2⟩, 0, 0, false⟩
+
+/-- **with a shared namespace a mandatory feature can be shadowed** (negation witness): the peer
+offers the mandatory, negotiable, eligible `fMand` and then the informational `fInfo` of the
+same namespace; `fInfo` takes the cache slot, nothing is left to pick, the session is reported
+established and `fMand` was never negotiated. This is the exact limit of `C01_ready_sound` /
+`C01_list_complete` ("the cache slot of its namespace is filled"); configuring two features with
+one namespace is outside what the cache can represent. -/
+theorem C01_shared_ns_shadows_mandatory :
+    ∃ c : Conf, Reach [fMand, fInfo] plainO 0
+        [.hdr true, .adv [.feat ⟨2, 1⟩ true, .feat ⟨2, 2⟩ false]] [] c ∧
+      c.pc = .done ∧ featReadyB c.tr = false ∧ eligible c.st fMand = true ∧
+      c.negd.contains fMand.name.ns = false :=
+  ⟨_, ⟨30, rfl⟩, by decide, by decide, by decide, by decide⟩
+
 /-! ### voluntary before mandatory -/
 
 /-- **voluntary first**: whenever the initiator's selection loop negotiates a mandatory entry
@@ -306,6 +377,40 @@ that call has already been negotiated on the current stream (`segNs`) — for ev
 iteration order -/
 theorem C01_voluntary_first_trace {c : Conf} (h : Reach C O st0 script picks c) : VolOK c.tr :=
   (invV_reach h).ok
+
+/-! ### TCP and WebSocket framing
+
+`websocket.Negotiator` is the same negotiator with another header syntax. The model is the same
+machine for both framings: `Peer.hdr` is a header *of the session's framing*, every theorem of
+this file holds for both. What the framing changes: -/
+
+/-- **a header of the other framing is never accepted**: when the machine reads a stream header
+(receiver first, initiator after its own header) and the peer sends a well-formed header of the
+other framing — `<open/>` on a TCP session, `<stream:stream>` on a WebSocket session — the run
+ends with a protocol error -/
+theorem C01_header_framing (c : Conf) (next : Pc) (r : List Peer) (hs : c.script = .hdrOther :: r)
+    (hc : O.cancel c.tr = false) (hf : O.fault c.io = false) (hb : O.block c.io = false) :
+    (readHdr O c next).pc = .fail .proto := by
+  unfold readHdr
+  simp [hs, hc, hf, hb]
+
+/-- … and where a selection is expected it is refused like any other unadvertised element -/
+theorem C01_header_as_selection : (Peer.hdrOther).selName = some (⟨nsStream, 3⟩, false, true) := rfl
+
+/-! ### the tee (`StreamConfig.TeeIn` / `TeeOut`) -/
+
+/-- **the tee is transparent**: a session whose configuration carries a tee (`runT true`: every
+negotiator call first wraps a connection that is not yet a `teeConn` and returns it, without I/O
+and without state bits; a restart with a new connection layer makes the next call wrap again)
+reaches every configuration — control point, state, trace, remaining input — that the session
+without a tee reaches; so the trace and the outcome of a run are the same with and without it.
+(Stated for contexts that are not cancelled: with a tee a cancelled context is noticed at the
+extra negotiator call, one failed I/O attempt earlier.) -/
+theorem C01_tee_transparent (C : List Feature) (O : Oracle) (hc : ∀ tr, O.cancel tr = false)
+    (st0 : St) (script : List Peer) (picks : List FName) (n : Nat) :
+    ∃ m, (runT true C O m ⟨init st0 script picks, false⟩).c = run C O n (init st0 script picks) :=
+  let ⟨m, h, _⟩ := tee_simulation C O hc (init st0 script picks) rfl rfl n
+  ⟨m, h⟩
 
 /-! ### negotiation ends -/
 
@@ -347,7 +452,11 @@ def demoO : Oracle :=
     list := fun _ f _ => ⟨f.id != 2, false⟩
     parseErr := fun _ _ _ => false
     fault := fun _ => false
-    cancel := fun _ => false }
+    cancel := fun _ => false
+    block := fun _ => false
+    dlRd := true
+    dlWr := true
+    layer := fun _ _ => false }
 
 def demoScript : List Peer :=
   [.hdr true, .adv [.feat ⟨nsTLS, 1⟩ true, .feat ⟨2, 1⟩ true],
